@@ -108,6 +108,10 @@ def observe(t, name: str, toks):
             ch = name[len(name.rstrip("+-")):] if not name.rstrip("+-") == "" else ""
             o["gas_is_body"] = (s.gasname == body + ch)
             o["gasname"] = s.gasname
+            # the base name (the name without phase prefix, group number and charge signs) is what identifiers are built from
+            if not any(tk["kind"] == "grain" for tk in toks):
+                o["gas_is_body"] = o["gas_is_body"] and s.basename == body
+                o["basename"] = s.basename
     except Exception as e:  # noqa
         o["ok"] = False
         o["err"] = type(e).__name__
